@@ -1,6 +1,7 @@
 package main
 
 import (
+	"bytes"
 	"fmt"
 	"strings"
 	"sync"
@@ -22,7 +23,7 @@ func checkCase(sc SCase, expect string) map[string]interface{} {
 // C03: accept => reference-valid (one direction), IsMnemonicValid <=> nil,
 // and the accepted last-word set has exactly 2^(11-n/3) members.
 func runC03(c *Ctx) {
-	c.res.Rule = "per (language, word count, base sentence from the reference encoder over 8 representative entropies incl. 0/1/2 leading zero bytes): all 2048 last words, all (n-1)x2047 single substitutions (2 bases quick, 8 thorough; other bases 16 substitutes per position), all transpositions, every word count 0..27, foreign words at every position, token damage, separator damage; plus all byte strings of length <=3 over a 12-byte alphabet and (thorough) all token sequences of length 11..13 over 3 tokens. Oracle: implementation accepts => reference validator (golden dictionaries, checksum over ENT/8 bytes) accepts; accepted last words per prefix == 2^(11-n/3); IsMnemonicValid == (CheckMnemonic == nil). distinct_nontrivial = distinct (sentence, language) cases whose reference verdict is not 'valid' (i.e. cases where acceptance would be wrong)"
+	c.res.Rule = "per (language, word count, base sentence from the reference encoder over 8 representative entropies incl. 0/1/2 leading zero bytes): all 2048 last words, all (n-1)x2047 single substitutions (2 bases quick, 8 thorough; other bases 16 substitutes per position), all transpositions, every word count 0..27, foreign words at every position, token damage, separator damage; plus the same sentence validated under language A and then under B for all 90 ordered pairs (A-word sentences and sentences made only of words the two lists share); plus all byte strings of length <=3 over a 12-byte alphabet and (thorough) all token sequences of length 11..13 over 3 tokens. Oracle: implementation accepts => reference validator (golden dictionaries, checksum over ENT/8 bytes) accepts; accepted last words per prefix == 2^(11-n/3); IsMnemonicValid == (CheckMnemonic == nil). distinct_nontrivial = distinct (sentence, language) cases whose reference verdict is not 'valid' (i.e. cases where acceptance would be wrong)"
 	c.Assume("golden lists are canonical", "NFKD form of the generated sentences is known by construction (golden words are NFKD-stable under CPython, separators map to U+0020)")
 	var mu sync.Mutex
 	accepted := map[string]int{}
@@ -96,6 +97,57 @@ func runC03(c *Ctx) {
 	distinct += nb
 	c.mu.Unlock()
 	c.AddScope("byte strings len<=3 over 12 bytes x 11 language values", nb, true, "")
+
+	// the same string under two languages, sequentially (A first, then B): what was accepted
+	// under A must not colour the verdict under B. Sentences of A's words, and sentences built
+	// only from words that A and B share (valid under A by choice of the last word).
+	var nCross int64
+	for a := 0; a < ref.NLang; a++ {
+		for b := 0; b < ref.NLang; b++ {
+			if a == b {
+				continue
+			}
+			var sents [][]string
+			sents = append(sents, c.M.Words(bytes.Repeat([]byte{byte(0x3b + a)}, 16), a), c.M.Words(bytes.Repeat([]byte{byte(0x5d + b)}, 32), a))
+			var common []string
+			for _, w := range c.M.List[a] {
+				if _, ok := c.M.Dict[b][w]; ok {
+					common = append(common, w)
+				}
+			}
+			if len(common) >= 12 {
+				for start := 0; start < 3; start++ {
+					t := make([]string, 12)
+					for i := 0; i < 11; i++ {
+						t[i] = common[(start*5+i*7)%len(common)]
+					}
+					for _, last := range common {
+						t[11] = last
+						if v, _ := c.M.ValidateTokens(t, a); v == ref.VValid {
+							sents = append(sents, append([]string(nil), t...))
+							break
+						}
+					}
+				}
+			}
+			for _, t := range sents {
+				if v, _ := c.M.ValidateTokens(t, a); v != ref.VValid {
+					continue
+				}
+				sent := strings.Join(t, " ")
+				_, _ = c.validate(sent, Langs[a])
+				errB, p := c.validate(sent, Langs[b])
+				nCross++
+				vb, _ := c.M.ValidateTokens(t, b)
+				if p == "" && errB == nil && vb != ref.VValid {
+					c.Violate(fmt.Sprintf("checkcross:%s:%d:%d", hs(sent), a, b),
+						fmt.Sprintf("%q accepted under %s right after it was validated under %s, although the reference verdict under %s is %q", sent, ref.LangNames[b], ref.LangNames[a], ref.LangNames[b], vb),
+						map[string]interface{}{"kind": "checkcross", "sentence": hs(sent), "first": a, "lang": b})
+				}
+			}
+		}
+	}
+	c.AddScope("same string under language A then B (90 ordered pairs; A-word sentences and shared-word sentences), sequential", nCross, true, "")
 
 	if c.Thorough {
 		// all token sequences of length 11..13 over {list[0], list[3], "zzz"} for English
